@@ -188,11 +188,9 @@ pub(crate) fn calculate_max_input(output_len: usize) -> usize {
 }
 
 fn write_chunk(input: &[u8], input_used: &mut usize, w: &mut Writer, max_chunk: usize) -> bool {
-    // TODO(martin): Redo this to  try and calculate a perfect fit of the
-    // input into the output.
-
-    // 5 is the smallest possible overhead
-    let available = w.available().saturating_sub(5);
+    // A chunk is <length in hex>\r\n<data>\r\n. Use the largest amount of data
+    // for which the entire chunk fits the remaining output.
+    let available = max_chunk_data(w.available());
 
     let to_write = input.len().min(max_chunk).min(available);
 
@@ -218,6 +216,32 @@ fn write_chunk(input: &[u8], input_used: &mut usize, w: &mut Writer, max_chunk: 
 
     // write another chunk?
     success && input.len() > to_write
+}
+
+/// Number of hex digits needed to write `v`.
+fn hex_len(mut v: usize) -> usize {
+    let mut n = 1;
+    while v >= 16 {
+        v /= 16;
+        n += 1;
+    }
+    n
+}
+
+/// The largest amount of chunk data that together with the chunk overhead fits `available`.
+fn max_chunk_data(available: usize) -> usize {
+    // \r\n after the length and \r\n after the data.
+    let room = available.saturating_sub(4);
+
+    // The data length never has more digits than `room` itself.
+    let fit = room.saturating_sub(hex_len(room));
+
+    // One more byte fits when that makes the length one digit shorter.
+    if fit + 1 + hex_len(fit + 1) <= room {
+        fit + 1
+    } else {
+        fit
+    }
 }
 
 #[derive(Clone, Copy, PartialEq, Eq)]
